@@ -1,6 +1,18 @@
 """Which units decide which property (read by tools/check.py)."""
 
 PROPS = {
+    "C26": {
+        "level": "proof",
+        "verus": ["execution"],
+        "explanation": "KERNEL ONLY. Verus proves, for every schema / selection / variables map, three decision functions of the executor against the specification text: "
+                       "try_nullify (Handling Field Errors: a value passes through; a propagated null stops at the first nullable position and continues through non-null ones, for every Type), "
+                       "does_fragment_type_apply == DoesFragmentTypeApply (same object type / objectType implements the interface / objectType is a member of the union; false for anything else), "
+                       "eval_if_arg == the value of the `if` argument of @skip / @include (Boolean literal, or a variable whose coerced value is a JSON boolean; nothing otherwise), and Selection::directives. "
+                       "Bodies are re-extracted from /repo on every run.",
+        "assumptions": ["IndexMap / IndexSet / JsonMap lookups behave as maps / sets keyed by the name's text; DirectiveList::get returns the first directive with that name; specified_argument_by_name the argument with that name (shim contracts)"],
+        "not_decided": ["the property's main clause: the response equals that of a reference executor (CollectFields' loop and grouping, CompleteValue, list handling, coerce_argument_values, error paths, data == null exactly when a null reaches the root)",
+                        "that the executor calls these three functions in the right places (call sites are async code, not extracted)"],
+    },
     "C29": {
         "level": "proof",
         "verus": ["types"],
